@@ -602,6 +602,10 @@ func Select(arr, idx *Term) *Term {
 	if arr.Op == "constarr" {
 		return arr.Args[0]
 	}
+	if arr.Op == "ite" && (arr.Args[1].Op == "store" || arr.Args[2].Op == "store" || arr.Args[1].Op == "ite" || arr.Args[2].Op == "ite") {
+		// push the read into the branches so that reads over stores simplify
+		return Ite(arr.Args[0], Select(arr.Args[1], idx), Select(arr.Args[2], idx))
+	}
 	return mk(&Term{Op: "select", Args: []*Term{arr, idx}, Sort: arr.Sort.Elem})
 }
 
